@@ -34,7 +34,11 @@ func New[T any](ctx context.Context, cap int) (<-chan T, chan<- T) {
 
 	go func() {
 		defer close(eg)
-		defer close(in)
+		defer func() {
+			// the sender may have closed its side already (end of stream)
+			defer func() { _ = recover() }()
+			close(in)
+		}()
 
 		for {
 			select {
@@ -47,6 +51,11 @@ func New[T any](ctx context.Context, cap int) (<-chan T, chan<- T) {
 
 			case x, ok := <-in:
 				if !ok {
+					// end of stream signalled by the sender: deliver the backlog
+					for mq.head != nil {
+						eg <- head(mq)
+						deq(mq)
+					}
 					return
 				}
 				enq(&x, mq)
